@@ -127,6 +127,22 @@ Qed.
 
 (* ---------- arithmetic sequence ---------- *)
 
+(* multiplicative resource under an arithmetic sequence whose difference is the literal 0 (a constant progression, finding
+   F27): the unrolled product of initial_term * child over the rounds *)
+Theorem arith_prod_zero_difference_correct r a q e cnt n :
+  Qeq_bool q 0 = true -> evalT r cnt == ofn n ->
+  exists g, gen_ArithmeticSequence_get_prod a (ENum q) e cnt = Some g /\
+            evalT r g == prodn n (fun _ => evalT r a * evalT r e).
+Proof.
+  intros Hq Hc. unfold gen_ArithmeticSequence_get_prod. cbn [is_zero_lit]. rewrite Hq.
+  eexists. split; [reflexivity|].
+  rewrite evalT_epow, (Qpow_std_nat _ _ _ Hc).
+  assert (Hm : evalT r (emul a e) == evalT r a * evalT r e) by apply evalT_emul.
+  clear Hc. induction n as [|n IH]; cbn [prodn].
+  - cbn. reflexivity.
+  - rewrite Qpower_S, IH, Hm. reflexivity.
+Qed.
+
 Theorem arith_sum_correct r a d e cnt n :
   evalT r cnt == ofn n ->
   exists g, gen_ArithmeticSequence_get_sum a d e cnt = Some g /\
